@@ -31,6 +31,43 @@ pub fn ring_cond(op: usize, i: usize, n: usize) -> Fm {
     }
 }
 
+pub const TERN_OPS: usize = 12;
+
+/// T3(n): statement i's condition is a ternary operator over (itself, i+1, i+2) - self-referential conditions with two
+/// further parents
+pub fn tern_cond(op: usize, i: usize, n: usize) -> Fm {
+    let a = || Fm::Atom(i);
+    let b = || Fm::Atom((i + 1) % n);
+    let c = || Fm::Atom((i + 2) % n);
+    match op % TERN_OPS {
+        0 => Fm::bin(1, Fm::bin(0, a(), b()), Fm::bin(0, Fm::not(a()), c())),          // if a then b else c
+        1 => Fm::bin(0, b(), Fm::bin(1, Fm::not(a()), c())),                          // b & (!a | c)
+        2 => Fm::bin(1, Fm::bin(0, a(), b()), Fm::bin(1, Fm::bin(0, a(), c()), Fm::bin(0, b(), c()))), // majority
+        3 => Fm::bin(0, a(), Fm::bin(0, b(), c())),
+        4 => Fm::bin(1, a(), Fm::bin(1, b(), c())),
+        5 => Fm::bin(4, a(), Fm::bin(4, b(), c())),
+        6 => Fm::bin(1, Fm::bin(0, a(), b()), c()),
+        7 => Fm::bin(0, a(), Fm::bin(1, b(), Fm::not(c()))),
+        8 => Fm::bin(0, Fm::not(a()), Fm::bin(1, b(), c())),
+        9 => Fm::bin(0, Fm::bin(2, a(), b()), c()),
+        10 => Fm::bin(0, b(), Fm::not(c())),
+        _ => Fm::not(b()),
+    }
+}
+
+pub fn tern_size(n: usize) -> u64 {
+    (TERN_OPS as u64).pow(n as u32)
+}
+
+pub fn tern(n: usize, mut idx: u64) -> Vec<Fm> {
+    let mut conds = vec![];
+    for i in 0..n {
+        conds.push(tern_cond((idx % TERN_OPS as u64) as usize, i, n));
+        idx /= TERN_OPS as u64;
+    }
+    conds
+}
+
 pub fn ring_size(n: usize) -> u64 {
     (RING_OPS as u64).pow(n as u32)
 }
